@@ -90,6 +90,14 @@ def run(chk):
         wj = {"version": "1.1", "features": [lf]}
         slot = cs.add_world(wj)
         fresh = cs.add_world(wj)
+        # a second, different world alive in the same process: the same slab, other temperatures; it is asked at exactly the
+        # points the first world was just asked at, and the first world is asked again afterwards
+        import copy
+        wo = copy.deepcopy(wj)
+        wo["features"][0]["temperature models"][0]["temperature"] += 350.0
+        wo["features"][0]["sections"][0]["temperature models"][0]["temperature"] -= 300.0
+        other = cs.add_world(wo)
+        other_fresh = cs.add_world(wo)
         import math
         for qi in range(4):
             al = rng.uniform(0.1, 0.8) * 4e5
@@ -103,6 +111,10 @@ def run(chk):
             cs.p3(slot, (xa, ya, TOP - d), d, ps)
             ib = cs.p3(slot, (xa, yb, TOP - d), d, ps)
             plan.append({"repeat": cs.p3(fresh, (xa, yb, TOP - d), d, ps), "of": ib})
+            io = cs.p3(other, (xa, yb, TOP - d), d, ps)
+            plan.append({"repeat": cs.p3(slot, (xa, yb, TOP - d), d, ps), "of": ib, "what": "answer depends on another world alive in the process"})
+            if qi == 3:
+                plan.append({"repeat": cs.p3(other_fresh, (xa, yb, TOP - d), d, ps), "of": io, "what": "answer depends on another world alive in the process"})
     impl, model = cs.run()
     chk.evaluations = len(impl)
     # --- correspondence: model vs implementation, bit for bit (libm paths: exp only) ---------------
@@ -113,7 +125,7 @@ def run(chk):
     for pl in plan:
         if "repeat" in pl:
             if impl[pl["repeat"]] != impl[pl["of"]]:
-                viol.append(("answer depends on earlier queries", pl["repeat"]))
+                viol.append((pl.get("what", "answer depends on earlier queries"), pl["repeat"]))
             continue
         b = common.parse_vec(impl[pl["batched"]])
         if b is None:
